@@ -145,6 +145,16 @@ CHECKS = {
             'one of them (names, labels on all atoms of the touched residues accumulated over groups, replacements) or, if none exists, the atoms '
             'must be gone with one unknown-input warning per group.',
             'Molecules are given in the post-RepairGraph state; any valid exact cover is accepted.', '§4 C14'),
+    'C01': ('B', 'bounded exhaustive enumeration of residue sequences x connectivities x node-key numberings x resid schemes x mapping sets on the real do_mapping, brute-force reference mapper',
+            'model_checking',
+            'Two toy force fields and a menu of mapping sets covering the shapes of the quantifier (one-to-one, many-to-one, shared atom, zero-'
+            'weight atoms incl. a bead built only from one, a bead built from no atom, a two-residue mapping, overlapping sets). Every residue '
+            'sequence of length 1..3 (thorough 4) over two residue types, linear / star / ring / cross-linked, under ALL permutations of the residue '
+            'order in node-key space and three within-residue key layouts (forward, backward, interleaved), three resid schemes, optional unmapped '
+            'heavy atom or hydrogen, stash on/off. The reference mapper enumerates placements by brute force and predicts block copies in '
+            'lowest-key order, consecutive residue numbers, stashed numbers, constituents and weights, inter-placement edges, re-indexed '
+            'interactions and the two warnings.',
+            'Modification mappings are not in the menu; residues have 2-3 atoms.', '§4 C01'),
     'C07': ('A+D', 'explicit-state BFS over deferred-writer histories with a dict file-system model; exhaustive crash-point/torn-write enumeration of every finalisation; audit-hook monitor over all library writers; full product of a CLI run alphabet through the script\'s own entry() bound to real sub-processes',
             'model_checking',
             'Four layers. (1) every enabled operation (open w/a/r+/wb incl. re-opens, files appearing from outside, write, close) in every '
